@@ -220,6 +220,11 @@ func (op R2owa) Simulate(vm *VM, instr string) error {
 	regBits := vm.Mach.R
 	reg := get_id(instr[:regBits])
 	outp := get_id(instr[regBits : int(regBits)+outBits])
+	if !vm.OutputsValid[outp] && vm.OutputsRecv[outp] {
+		// recv is still high from the previous transfer on this output: offering
+		// now would complete at once against that stale recv and lose the value.
+		return nil
+	}
 	vm.Outputs[outp] = vm.Registers[reg]
 	vm.OutputsValid[outp] = true
 	if vm.OutputsRecv[outp] {
